@@ -8,7 +8,7 @@ REPO = os.environ.get("VERIF_REPO", "/repo")
 SPEC = os.path.join(VERIF, "spec")
 HARNESS = os.path.join(VERIF, "harness")
 WORK = os.environ.get("VERIF_WORK", os.path.join(VERIF, "work"))
-EVIDENCE = os.path.join(VERIF, "evidence")
+EVIDENCE = os.environ.get("VERIF_EVIDENCE", os.path.join(VERIF, "evidence"))
 PY = os.environ.get("VERIF_PYTHON", "/venv/bin/python")
 GUARD = "MCHAP_VERIF"
 NCPU = int(os.environ.get("VERIF_CPUS", str(os.cpu_count() or 4)))
